@@ -703,16 +703,46 @@ static Verdict judge_crash_and_recover(const Cfg &c, vsx::Explorer &ex, const vs
   bool okf = load_view("e/jobs.xml", f, e1) && complete_view(f, c.jobs);
   bool okb = load_view("e/jobs.xml~", b, e2) && complete_view(b, c.jobs);
   if (!okf && !okb) { bad("crash-no-complete-copy", "after the crash neither jobs.xml (" + e1 + ") nor jobs.xml~ (" + e2 + ") is a complete job list"); return v; }
-  const std::vector<JobView> &g = okf ? f : b;
+  const std::vector<JobView> &g0 = okf ? f : b;
   // results that had reached the job file in a completed rewrite before the crash must be in the surviving copy
   {
     std::vector<JobView> cm;
     std::string e3;
     if (load_view("e/committed.xml", cm, e3) && complete_view(cm, c.jobs))
       for (auto &j : cm)
-        if (j.status == "COMPLETE" && (g[j.id - 1].status != "COMPLETE" || g[j.id - 1].output != j.output))
-          bad("crash-lost-committed-result", "job " + std::to_string(j.id) + " was COMPLETE in the job file before the crash but the surviving copy (" + (okf ? "job file" : "backup") + ") says " + g[j.id - 1].status);
+        if (j.status == "COMPLETE" && (g0[j.id - 1].status != "COMPLETE" || g0[j.id - 1].output != j.output))
+          bad("crash-lost-committed-result", "job " + std::to_string(j.id) + " was COMPLETE in the job file before the crash but the surviving copy (" + (okf ? "job file" : "backup") + ") says " + g0[j.id - 1].status);
   }
+  if (!okf) {
+    // An impatient user first starts a new process on the torn job file, without restoring anything.  Whatever that process
+    // does (the unchanged code reports the parse error), the statement still holds afterwards: one of the two files is a
+    // complete job list and it holds every result that had reached the job file before the crash.
+    Cfg t = c;
+    t.recovery = true; t.crash_at = -1; t.crash_bytes = -1; t.scan = 0; t.K = 1;
+    t.restart = "stat(ASSIGNED)";
+    ex.body = [&](vs_shared *s, const std::vector<int> &ch) { child_body(t, s, ch, horizon); };
+    vsx::Exec z = ex.run({});
+    recov_runs++;
+    if (z.crashed || (z.verdict != VS_COMPLETED && z.verdict != VS_RUNNING)) { bad("restart-on-torn-file-did-not-end", "a process started on the torn job file ended with verdict " + std::to_string(z.verdict) + " " + z.message); return v; }
+    std::vector<JobView> f2, b2;
+    std::string e4, e5;
+    bool okf2 = load_view("e/jobs.xml", f2, e4) && complete_view(f2, c.jobs);
+    bool okb2 = load_view("e/jobs.xml~", b2, e5) && complete_view(b2, c.jobs);
+    if (!okf2 && !okb2) {
+      bad("restart-on-torn-file-no-complete-copy", "the crash left a torn job file and a complete backup; after a new process was started on the torn file neither jobs.xml (" + e4 + ") nor jobs.xml~ (" + e5 + ") is a complete job list");
+      return v;
+    }
+    const std::vector<JobView> &g2 = okf2 ? f2 : b2;
+    std::vector<JobView> cm;
+    std::string e3;
+    if (load_view("e/committed.xml", cm, e3) && complete_view(cm, c.jobs))
+      for (auto &j : cm)
+        if (j.status == "COMPLETE" && (g2[j.id - 1].status != "COMPLETE" || g2[j.id - 1].output != j.output))
+          bad("restart-on-torn-file-lost-committed-result", "job " + std::to_string(j.id) + " was COMPLETE in the job file before the crash; after a new process was started on the torn file the surviving copy says " + g2[j.id - 1].status);
+    if (!v.ok) return v;
+    if (okf2) { okf = true; f = f2; } else b = b2;
+  }
+  const std::vector<JobView> g = okf ? f : b;
   if (!okf) raw_write_file("e/jobs.xml", raw_read_file("e/jobs.xml~"));  // what the user does: restore the backup
   std::string deadhost = hostname_str() + ":" + std::to_string(PID0);
   // jobs in flight at the crash: ASSIGNED to the dead process in the surviving copy
@@ -1029,7 +1059,7 @@ int main(int argc, char **argv) {
     R.rule = "crash enumeration on the real write path: (a) scan: at every crash instant (before/after each truncation, after each byte boundary "
              "[quick: 1, n/2, n-1, n of each write; thorough: every byte] of each write to job file/backup) of every schedule with <= k preemptions for "
              "(K,T) in {(1,1),(1,2),(2,1)} the invariant 'job file or backup parses (real LOAD_JOBS) and lists all ids' is evaluated; (b) K=1: the process "
-             "is killed at every I/O event x byte offset, the surviving complete copy is restored, one fresh process restarts with stat(ASSIGNED) and the end state "
+             "is killed at every I/O event x byte offset; if that leaves the job file torn a new process is first started on it as it is (afterwards one of the two files must still be a complete list holding the committed results); then the surviving complete copy is restored, one fresh process restarts with stat(ASSIGNED) and the end state "
              "must list every job once as COMPLETE without re-running jobs that were COMPLETE in the surviving copy. distinct_nontrivial = distinct (config, crash point, recovery observation)";
     std::vector<Cfg> scan_cfgs;
     for (auto kt : std::vector<std::pair<int, int>>{{1, 1}, {1, 2}, {2, 1}})
